@@ -46,6 +46,11 @@ Lines ==
      [kind |-> "assign",  line |-> "noinlines",      opt |-> "noinlines", val |-> "true"],
      [kind |-> "assign",  line |-> "taghide=k",      opt |-> "taghide", val |-> "k"],
      [kind |-> "assign",  line |-> "relative_percentages=true", opt |-> "relative_percentages", val |-> "true"],
+     \* options that feed process-wide helpers (file name trimming): only meaningful in the directed histories below
+     [kind |-> "assign",  line |-> "source_path=/home/me/proj", opt |-> "source_path", val |-> "/home/me/proj"],
+     [kind |-> "assign",  line |-> "source_path=/x/src", opt |-> "source_path", val |-> "/x/src"],
+     [kind |-> "assign",  line |-> "trim_path=/build", opt |-> "trim_path", val |-> "/build"],
+     [kind |-> "assign",  line |-> "trim_path=/build/proj", opt |-> "trim_path", val |-> "/build/proj"],
      \* C09: lines the grammar must reject (or ignore) without any effect
      [kind |-> "bad",     line |-> "top >",          opt |-> "", val |-> ""],
      [kind |-> "bad",     line |-> "top (",          opt |-> "", val |-> ""],      \* invalid regexp
@@ -73,7 +78,12 @@ Idx(K) == {i \in DOMAIN Lines : Lines[i].kind \in K}
 MaxLen == IF Tier = "guard" THEN 2 ELSE 3
 C09Lines == Idx({"bad", "noop"})
 
-Opts == {"focus", "hide", "tagroot", "granularity", "nodecount", "sample_index", "sort", "noinlines", "taghide", "relative_percentages"}
+Opts == {"focus", "hide", "tagroot", "granularity", "nodecount", "sample_index", "sort", "noinlines", "taghide", "relative_percentages", "source_path", "trim_path"}
+\* directed histories, longer than MaxLen: a report, a change of an option that only a LATER report can show, that report
+Directed == { <<"granularity=files", "source_path=/home/me/proj", "top", "source_path=/x/src", "top">>,
+              <<"granularity=files", "trim_path=/build", "top", "trim_path=/build/proj", "top">>,
+              <<"lines=true", "source_path=/x/src", "top", "source_path=/home/me/proj", "tree h">> }
+OnlyDirected == {"source_path=/home/me/proj", "source_path=/x/src", "trim_path=/build", "trim_path=/build/proj"}
 Default == [o \in Opts |-> "default"]
 
 VARIABLES hist,      \* the lines typed so far (indices into Lines)
@@ -85,15 +95,18 @@ Init == hist = <<>> /\ cfg = Default /\ pristine = "P" /\ work = "none" /\ outs 
 \* C10 histories: mutating commands interleaved with assignments; C09: one rejected/ignored line anywhere
 Admissible(i) == \/ Lines[i].kind \in {"command", "assign"}
                  \/ (Lines[i].kind \in {"bad", "noop"} /\ \A k \in DOMAIN hist : Lines[hist[k]].kind \in {"command", "assign"})
+Follows(d, i) == Len(hist) < Len(d) /\ Lines[i].line = d[Len(hist) + 1] /\ \A k \in DOMAIN hist : Lines[hist[k]].line = d[k]
+Fits(i) == \/ (Len(hist) < MaxLen /\ Lines[i].line \notin OnlyDirected /\ \A k \in DOMAIN hist : Lines[hist[k]].line \notin OnlyDirected)
+           \/ \E d \in Directed : Follows(d, i)
 
 Assign(i) ==
-  /\ pc = "prompt" /\ Len(hist) < MaxLen /\ Lines[i].kind = "assign" /\ Admissible(i)
+  /\ pc = "prompt" /\ Fits(i) /\ Lines[i].kind = "assign" /\ Admissible(i)
   /\ cfg' = [cfg EXCEPT ![Lines[i].opt] = Lines[i].val]
   /\ hist' = Append(hist, i) /\ outs' = Append(outs, [eff |-> cfg, on |-> "-"])
   /\ UNCHANGED <<pristine, work, pc>>
 \* a command: fresh copy, arguments applied to a copy of the options, report generation mutates the copy
 Command(i) ==
-  /\ pc = "prompt" /\ Len(hist) < MaxLen /\ Lines[i].kind = "command" /\ Admissible(i)
+  /\ pc = "prompt" /\ Fits(i) /\ Lines[i].kind = "command" /\ Admissible(i)
   /\ LET on == IF SharedWork THEN (IF work = "none" THEN pristine ELSE work) ELSE pristine IN
      /\ outs' = Append(outs, [eff |-> cfg, on |-> on])
      /\ work' = "mutated-by-" \o Lines[i].line
@@ -101,7 +114,7 @@ Command(i) ==
   /\ hist' = Append(hist, i)
   /\ UNCHANGED <<pristine, pc>>
 BadOrNoop(i) ==
-  /\ pc = "prompt" /\ Len(hist) < MaxLen /\ Lines[i].kind \in {"bad", "noop"} /\ Admissible(i)
+  /\ pc = "prompt" /\ Fits(i) /\ Lines[i].kind \in {"bad", "noop"} /\ Admissible(i)
   /\ hist' = Append(hist, i) /\ outs' = Append(outs, [eff |-> cfg, on |-> "-"])
   /\ UNCHANGED <<cfg, pristine, work, pc>>
 \* the behaviour ends: it is printed together with, for every command, the assignments in effect
